@@ -25,8 +25,8 @@ m('c01-drop-allowed-test', 'C01', SM, "        if next_state.LABEL not in self._
 m('c01-allowed-test-logs-only', 'C01', SM, "            raise RuntimeError(f'Cannot transition from {self._state.LABEL} to {next_state.label}')",
   "            _LOGGER.warning('Cannot transition from %s to %s', self._state.LABEL, next_state.label)", 'fire', '_exit_current_state')
 m('c01-kill-no-terminated-test', 'C01', P, "        if self.has_terminated():\n            # Can't kill\n            return False\n", "", 'fire', 'Process.kill')
-m('c01-state-writer-in-process', 'C01', P, "        self.set_status(msg_txt)\n        self.future().set_exception(exceptions.KilledError(msg_txt))",
-  "        self.set_status(msg_txt)\n        self._state = self._state\n        self.future().set_exception(exceptions.KilledError(msg_txt))", 'fire', 'on_kill')
+m('c01-state-writer-in-process', 'C01', P, "        self.set_status(msg_txt)\n\n        # The kill may have been triggered",
+  "        self.set_status(msg_txt)\n        self._state = self._state\n\n        # The kill may have been triggered", 'fire', 'on_kill')
 m('c01-fail-unguarded-again', 'C01', P, "    @event(\n        from_states=(process_states.Created, process_states.Running, process_states.Waiting),\n        to_states=process_states.Excepted,\n    )",
   "    @event(to_states=process_states.Excepted)", 'fire', 'Process.fail', 'reverts the G2 fix')
 m('c01-step-recheck-dropped', 'C01', P, "            if self.has_terminated():\n                # The process was terminated while the step was in flight (e.g. a scheduled callback failed it).\n                # A terminal state is final: there is nothing left to transition to.\n                return\n",
@@ -353,3 +353,5 @@ m('c17-silent-log-message', 'C17', PC, "            LOGGER.warning('rejecting ta
 # ------------------------------------------------------------------ regressions of fix: commits not yet covered above
 m('c04-on-kill-unguarded-again', 'C04', P, "        if self.future().done():\n            self._future = persistence.SavableFuture(loop=self._loop)\n        self.future().set_exception(exceptions.KilledError(msg_txt))", "        self.future().set_exception(exceptions.KilledError(msg_txt))", 'fire', 'on_kill', 'reverts the G11 fix')
 m('c02-future-replaced-while-pending', 'C02', P, "        if self.future().done():\n            self._future = persistence.SavableFuture(loop=self._loop)\n        self.future().set_exception(exceptions.KilledError(msg_txt))", "        self._future = persistence.SavableFuture(loop=self._loop)\n        self.future().set_exception(exceptions.KilledError(msg_txt))", 'fire', 'on_kill', 'waiters on the old future are never released')
+m('c01-bypass-outlives-transition', 'C01', SM, "        finally:\n            self._transition_failing = False\n            self._transitioning = False", "        finally:\n            self._transitioning = False", 'fire', 'transition_to')
+m('c01-bypass-raised-eagerly', 'C01', SM, "            self._transitioning = True\n            label = new_state.LABEL\n", "            self._transitioning = True\n            self._transition_failing = self._transition_failing or new_state.is_terminal()\n            label = new_state.LABEL\n", 'fire', 'transition_to')
